@@ -34,6 +34,12 @@ SCRIPTS_QUICK = [
     # EVERY negative timeout means "no timeout", not only -1
     "W32:%d:0:-2|N:%d:1" % (A, A),
     "W64:%d:0:-9223372036854775808|W32:%d:0:-1000000000|N:%d:2" % (C, C, C),
+    # the host runs out of memory inside a wait (k-th allocation of the call fails; 9: its condition variable cannot be made): the call
+    # traps and nothing else changes - waiters already asleep on the same address or in the same bucket are still found afterwards
+    "W32:%d:0:-1|X32:%d:0:-1:1;N:%d:1;N:%d:1" % (A, A, A, A),
+    "W32:%d:0:-1|X32:%d:0:5:2;N:%d:1;N:%d:1" % (A, B, A, A),
+    "W32:%d:0:-1|X32:%d:0:-1:9;W32:%d:0:5|N:%d:2;N:%d:2" % (A, A, A, A, A),
+    "X32:%d:0:5:2;X32:%d:0:5:3;X32:%d:0:5:2;W32:%d:0:5|N:%d:1" % (A, A, A, A, A),
 ]
 SCRIPTS_THOROUGH = SCRIPTS_QUICK + [
     "W32:%d:0:-1|W32:%d:0:-1|W32:%d:0:-1|N:%d:1;N:%d:1;N:%d:1" % (A, B, A + 8192, B, A, A + 8192),
@@ -52,14 +58,14 @@ def build_driver(wd):
                         "-I", os.path.join(REPO, "w2c2"), "-I", BINDC,
                         os.path.join(BINDC, "futex_driver.c"), os.path.join(BINDC, "sched.c"),
                         os.path.join(REPO, "futex", "futex.c"), os.path.join(REPO, "futex", "map.c"),
-                        os.path.join(REPO, "futex", "list.c"), "-o", exe, "-lpthread"], timeout=300)
+                        os.path.join(REPO, "futex", "list.c"), "-o", exe, "-lpthread", "-Wl,--wrap=calloc"], timeout=300)
     if rc != 0:
         raise common.MachineryError("cannot build the futex driver: " + err[-2000:])
     return exe
 
 
 def build_driver_pthread_level(wd):
-    return explore.build_pthread_level(wd, "fxp", os.path.join(BINDC, "futex_driver.c"), [os.path.join(REPO, "futex", f) for f in ("futex.c", "map.c", "list.c")])
+    return explore.build_pthread_level(wd, "fxp", os.path.join(BINDC, "futex_driver.c"), [os.path.join(REPO, "futex", f) for f in ("futex.c", "map.c", "list.c")], wraps=["calloc"])
 
 
 def history_of(r):
@@ -71,7 +77,8 @@ def history_of(r):
             h.append({"ev": "call", "t": e["t"], "op": op, "a": e["a"], "x": e["b"] % (1 << 31) if op != "notify" else min(e["b"], 1000),
                       "timed": op.startswith("wait") and e["c"] >= 0})
         elif e["ev"] == "ret":
-            h.append({"ev": "ret", "t": e["t"], "res": e["res"]})
+            # a wait that ended in the allocation-failure trap (injected by the driver) is result 3 of FutexAbs.WaitFail
+            h.append({"ev": "ret", "t": e["t"], "res": 3 if e["res"] == -1 else e["res"]})
         elif e["ev"] == "blocked":
             h.append({"ev": "blocked", "t": e["t"]})
     h.append({"ev": "reset" if r["end"] and r["end"]["outcome"] == "complete" else "stuck"})
@@ -115,7 +122,7 @@ def main():
     rng = random.Random(SEED)
     # 1. design level: the implementation-shaped model refines the abstract one (all interleavings, small instances)
     impl = {"distinct": 0, "generated": 0}
-    for cfg in (["FutexImplA.cfg", "FutexImplB.cfg", "FutexImplLive.cfg"] + ([] if tier == "quick" else ["FutexImplC.cfg"])):
+    for cfg in (["FutexImplA.cfg", "FutexImplB.cfg", "FutexImplF.cfg", "FutexImplLive.cfg"] + ([] if tier == "quick" else ["FutexImplC.cfg"])):
         r = tlc_ok(tlc("MCFutex", cfg=cfg, workers=8, timeout=3000, xmx="12g"), cfg)
         impl["distinct"] += r["distinct"]
         impl["generated"] += r["generated"]
@@ -180,7 +187,7 @@ def main():
         rc, out, err = run(["gcc", "-O1", "-g", "-w", "-DWASM_THREADS_PTHREADS", "-I", os.path.join(REPO, "w2c2"), "-I", BINDC,
                             os.path.join(BINDC, "futex_driver.c"), os.path.join(BINDC, "real_shim.c"),
                             os.path.join(REPO, "futex", "futex.c"), os.path.join(REPO, "futex", "map.c"),
-                            os.path.join(REPO, "futex", "list.c"), "-o", real, "-lpthread", "-Wl,--wrap=pthread_cond_timedwait"], timeout=300)
+                            os.path.join(REPO, "futex", "list.c"), "-o", real, "-lpthread", "-Wl,--wrap=pthread_cond_timedwait,--wrap=calloc"], timeout=300)
         if rc != 0:
             raise common.MachineryError("cannot build the real-thread futex driver: " + err[-2000:])
         LONG = [2 ** 63 - 1, 2 ** 62, 10 ** 18, 8 * 10 ** 18, 9 * 10 ** 18, 10 ** 15]
